@@ -24,8 +24,9 @@ def cfg(n, err, status, inv, live=True, loss=False, old_wait=False):
 
 
 def _one(args):
-    logging.disable(logging.CRITICAL)
     from . import serial_rec
+    from .common import set_logging
+    set_logging(len(args) > 11 and bool(args[11]))
     stmts, acks, status, late = args[:4]
     lose = args[4] if len(args) > 4 else 0
     slow = tuple(args[5]) if len(args) > 5 and args[5] else None
@@ -51,13 +52,13 @@ def enc(spec):
             "mode": spec[6] if len(spec) > 6 else "serial", "lose_idle": spec[7] if len(spec) > 7 else 0,
             "instant": list(spec[8]) if len(spec) > 8 and spec[8] else [],
             "idle_lines": {str(k): [list(x) for x in v] for k, v in spec[9].items()} if len(spec) > 9 and spec[9] else {},
-            "wfail": spec[10] if len(spec) > 10 else 0}
+            "wfail": spec[10] if len(spec) > 10 else 0, "verbose": bool(spec[11]) if len(spec) > 11 else False}
 
 
 def dec(d):
     return ([bytes(s) for s in d["stmts"]], [bytes(a) for a in d["acks"]],
             {int(k): [bytes(x) for x in v] for k, v in d["status"].items()}, d["late"], d.get("lose", 0), d.get("slow"), d.get("mode", "serial"), d.get("lose_idle", 0), d.get("instant", []),
-            {int(k): [bytes(x) for x in v] for k, v in d.get("idle_lines", {}).items()}, d.get("wfail", 0))
+            {int(k): [bytes(x) for x in v] for k, v in d.get("idle_lines", {}).items()}, d.get("wfail", 0), d.get("verbose", False))
 
 
 def project(trace, spec):
@@ -251,7 +252,7 @@ class P(flow.Plan):
             # the serial port refuses a write while reads keep timing out (added after seed C16f): that write() raises
             wfail = rng.randint(1, k) if i % 13 == 6 and mode == "serial" and not lose and not slow and not idle and not inst and not alarms else 0
             specs.append((stmts, acks, status, rng.random() < 0.15 and not lose and not slow and not idle and not inst and not alarms and not wfail,
-                          lose if mode == "serial" else 0, slow, mode, idle, inst, alarms, wfail))
+                          lose if mode == "serial" else 0, slow, mode, idle, inst, alarms, wfail, i % 5 == 3))   # last: DEBUG logging on
         traces = run_all(specs)
         for t in traces:
             t["meta"]["driver"] = "random"
